@@ -23,6 +23,7 @@ pub struct ImageWriter<'a, T: Read + Write + Seek> {
     writer: &'a mut PagedWriter<T>,
     images: &'a mut Vec<Image>,
     image: Image,
+    finalized: bool,
 }
 
 impl<'a, T: Read + Write + Seek> ImageWriter<'a, T> {
@@ -47,6 +48,7 @@ impl<'a, T: Read + Write + Seek> ImageWriter<'a, T> {
                 sensor_model: None,
                 sensor_serial: None,
             },
+            finalized: false,
         })
     }
 
@@ -239,8 +241,14 @@ impl<'a, T: Read + Write + Seek> ImageWriter<'a, T> {
             Error::invalid("Image must have a visual reference or a projection")?
         }
 
+        // A second call would add the same image once more
+        if self.finalized {
+            Error::invalid("The image was already finalized")?
+        }
+
         // Add metadata for XML generation later, when the file is completed.
         self.images.push(self.image.clone());
+        self.finalized = true;
 
         Ok(())
     }
